@@ -241,3 +241,201 @@ class GetItem(Contract):
 def contracts(src, T):
     return [VariantAdd(src, T, "Variants", 0), VariantAdd(src, T, "Variants", 1), VariantAdd(src, T, "Variant", 0), VariantAdd(src, T, "Variant", 1),
             GetItem(src, T)]
+
+
+class ForestRoundTrip(Contract):
+    """composeinfo Variants.serialize + Variants.deserialize on the forest  top(T) -> child(C)  [+ a second top-level variant U]:
+    ids, names, types, arches and one path table symbolic.  Re-reading what was written reproduces every variant with its fields,
+    paths, parent link and children.  Bounded in SHAPE (this forest), unbounded in values."""
+
+    def __init__(self, src, T, layered=False):
+        self.src, self.T, self.layered = src, T, layered
+        self.name = "productmd.composeinfo.Variants.deserialize(serialize(forest))%s" % ("[layered-product child]" if layered else "")
+        self.key = "rt:composeinfo.Variants:%d" % int(layered)
+
+    def setup(self, E):
+        ci = E.instantiate(("composeinfo", "ComposeInfo"))
+        ci2 = E.instantiate(("composeinfo", "ComposeInfo"))
+        vs = {}
+        tid = SV(sym.Val.VStr(z3.Const("T.id", sym.S)))
+        cid = SV(sym.Val.VStr(z3.Const("C.id", sym.S)))
+        uidv = SV(sym.Val.VStr(z3.Const("U.id", sym.S)))
+        for x in (tid, cid, uidv):
+            E.assume(sym.in_lang(x, ID))
+        E.assume(Not(eq(tid, uidv)))
+        arch = SV(sym.Val.VStr(z3.Const("arch", sym.S)))
+        E.assume(Not(eq(arch, "")))
+        arch2 = SV(sym.Val.VStr(z3.Const("arch.foreign", sym.S)))
+        E.assume(Not(eq(arch2, arch)))
+
+        def mk(tag, vid, uid, parent, typ):
+            v = E.instantiate(("composeinfo", "Variant"), [ci])
+            name = SV(sym.Val.VStr(z3.Const("%s.name" % tag, sym.S)))
+            E.assume(Not(eq(name, "")))
+            v.fields.update({"id": vid, "uid": uid, "name": name, "type": typ, "arches": ListSet([arch]), "parent": parent})
+            p = SV(sym.Val.VStr(z3.Const("%s.os_tree" % tag, sym.S)))
+            E.assume(Not(eq(p, "")))
+            d = E.models.new_dict("os_tree")
+            d.entries.append(Entry(arch, True, p))
+            # documented normalisation: a path filed under an arch outside the variant's arch set is not stored
+            d.entries.append(Entry(arch2, True, "foreign/%s" % tag))
+            v.fields["paths"].fields["os_tree"] = d
+            # ... and neither is an empty path
+            d2 = E.models.new_dict("packages")
+            d2.entries.append(Entry(arch, True, ""))
+            v.fields["paths"].fields["packages"] = d2
+            vs[tag] = (v, {"id": vid, "uid": uid, "name": name, "type": typ, "path": p})
+            return v
+        ttype = SV(sym.Val.VStr(z3.Const("T.type", sym.S)))
+        E.assume(sym.isin(ttype, ["variant", "optional", "addon"]))
+        top = mk("T", tid, tid, None, ttype)
+        child = mk("C", cid, sym.concat(tid, "-", cid), top, "layered-product" if self.layered else "addon")
+        if self.layered:
+            from .sections import _sv_fields, SECTIONS
+            f = _sv_fields(E, child.fields["release"], ["name", "version", "short", "type"], "C.rel")
+            child.fields["release"].fields["is_layered"] = True
+            child.fields["release"].fields["internal"] = False
+            E.assume(F.valid_release(self.T, child.fields["release"]))
+            vs["C"][1]["rel"] = f
+        other = mk("U", uidv, uidv, None, "variant")
+        top.fields["variants"].entries.append(Entry(cid, True, child))
+        # either registration order of the two top-level variants
+        tops = [(tid, top), (uidv, other)]
+        if E.decide(E.fresh("tops_reversed", z3.BoolSort())):
+            tops.reverse()
+        for k, v in tops:
+            ci.fields["variants"].fields["variants"].entries.append(Entry(k, True, v))
+        return {"ci": ci, "ci2": ci2, "vs": vs, "arch": arch, "data": E.models.new_dict("payload")}
+
+    def call(self, E, st):
+        E.call(E.getattr_(st["ci"].fields["variants"], "serialize"), [st["data"]])
+        return E.call(E.getattr_(st["ci2"].fields["variants"], "deserialize"), [st["data"]])
+
+    def post(self, E, st, out):
+        if out.kind == "raise":
+            return {"write_read_cycle_succeeds": False}
+        vs = st["vs"]
+        top2 = st["ci2"].fields["variants"].fields["variants"]
+        tl = [(e.key, e.value) for e in top2.entries if e.present is True]
+
+        def find(cont, vid):
+            e = E.models.sd_lookup(cont, vid, create=False)
+            return e.value if e is not None and e.present is True else None
+        t2 = find(top2, vs["T"][1]["id"])
+        u2 = find(top2, vs["U"][1]["id"])
+        c2 = find(t2.fields["variants"], vs["C"][1]["id"]) if isinstance(t2, Obj) else None
+
+        def same(v2, f, parent):
+            if not isinstance(v2, Obj):
+                return False
+            arches = v2.fields["arches"]
+            am = arches.items if isinstance(arches, ListSet) else None
+            pt = v2.fields["paths"].fields["os_tree"]
+            pe = E.models.sd_lookup(pt, st["arch"], create=False) if isinstance(pt, SymDict) else None
+            norm = isinstance(pt, SymDict) and len([e for e in pt.entries if e.present is True]) == 1 and \
+                not [e for e in v2.fields["paths"].fields["packages"].entries if e.present is True]
+            return And(_veq(v2.fields["id"], f["id"]), _veq(v2.fields["uid"], f["uid"]), _veq(v2.fields["name"], f["name"]),
+                       _veq(v2.fields["type"], f["type"]), am is not None and len(am) == 1 and _veq(am[0], st["arch"]),
+                       _veq(pe.value, f["path"]) if pe is not None and pe.present is True else False,
+                       norm, v2.fields["parent"] is parent)
+        # what was WRITTEN (byte-identical second dump): only non-empty paths of the variant's own arches
+        def written_paths_ok(uid):
+            sec = E.models.sd_lookup(st["data"], "variants", create=False)
+            ve = E.models.sd_lookup(sec.value, uid, create=False) if sec is not None and isinstance(sec.value, SymDict) else None
+            if ve is None or not isinstance(ve.value, SymDict):
+                return False
+            pe = E.models.sd_lookup(ve.value, "paths", create=False)
+            if pe is None or not isinstance(pe.value, SymDict):
+                return False
+            cats = dict((e.key, e.value) for e in pe.value.entries if e.present is True)
+            if sorted(k for k in cats if isinstance(k, str)) != ["os_tree"]:
+                return False
+            ents = [e for e in cats["os_tree"].entries if e.present is True]
+            return len(ents) == 1 and _veq(ents[0].key, st["arch"])
+        cl = {"write_read_cycle_succeeds": True, "two_top_level_variants": len(tl) == 2,
+              "only_nonempty_paths_of_own_arches_written": And(written_paths_ok(vs["T"][1]["uid"]), written_paths_ok(vs["C"][1]["uid"])),
+              "top_level_variants_reproduced": And(same(t2, vs["T"][1], None), same(u2, vs["U"][1], None)),
+              "child_reproduced_under_its_parent": same(c2, vs["C"][1], t2),
+              "no_other_children": isinstance(t2, Obj) and len([e for e in t2.fields["variants"].entries if e.present is True]) == 1 and
+              isinstance(u2, Obj) and not [e for e in u2.fields["variants"].entries if e.present is True]}
+        if self.layered and isinstance(c2, Obj):
+            rf = vs["C"][1]["rel"]
+            cl["layered_product_release_reproduced"] = And(*[_veq(c2.fields["release"].fields[k], rf[k]) for k in ("name", "version", "short", "type")])
+        return cl
+
+    def concretise(self, model, st):
+        vs = st["vs"]
+        inp = {"arch": concretise.value_of(model, st["arch"])}
+        for tag in ("T", "C", "U"):
+            f = vs[tag][1]
+            inp[tag] = dict((k, concretise.value_of(model, f[k])) for k in ("id", "name", "type", "path"))
+        if self.layered:
+            inp["rel"] = dict((k, concretise.value_of(model, v)) for k, v in vs["C"][1]["rel"].items())
+        return inp
+
+    def sample_inputs(self, rng):
+        for t in ("variant", "optional"):
+            for ids in (("Server", "HA", "Client"), ("B", "A", "A1"), ("Z", "Z", "Y")):
+                inp = {"arch": "x86_64", "T": {"id": ids[0], "name": "t", "type": t, "path": "T/os"},
+                       "C": {"id": ids[1], "name": "c", "type": "layered-product" if self.layered else "addon", "path": "C/os"},
+                       "U": {"id": ids[2], "name": "u", "type": "variant", "path": "U/os"}}
+                if self.layered:
+                    inp["rel"] = {"name": "LP", "version": "1.0", "short": "lp", "type": "ga"}
+                yield inp
+
+    def native_eval(self, inputs):
+        CI = self.src.mods["composeinfo"]
+        ci, ci2 = CI.ComposeInfo(), CI.ComposeInfo()
+        arch = inputs["arch"]
+
+        def mk(tag, uid):
+            v = CI.Variant(ci)
+            f = inputs[tag]
+            v.id, v.uid, v.name, v.type, v.arches = f["id"], uid, f["name"], f["type"], set([arch])
+            v.paths.os_tree = {arch: f["path"], arch + "-foreign": "foreign/%s" % tag}
+            v.paths.packages = {arch: ""}
+            return v
+        T_ = mk("T", inputs["T"]["id"])
+        U_ = mk("U", inputs["U"]["id"])
+        C_ = mk("C", "%s-%s" % (inputs["T"]["id"], inputs["C"]["id"]))
+        C_.parent = T_
+        if self.layered:
+            for k, v in inputs["rel"].items():
+                setattr(C_.release, k, v)
+        T_.variants[C_.id] = C_
+        ci.variants.variants[T_.id] = T_
+        ci.variants.variants[U_.id] = U_
+        data = {}
+
+        def cyc():
+            ci.variants.serialize(data)
+            ci2.variants.deserialize(data)
+        nat = native_call(cyc)
+        if nat[0] == "raise":
+            return nat, {"write_read_cycle_succeeds": False}
+        from bounded import gen
+
+        def view(v):
+            return gen.view_variant(v)
+        tops = ci2.variants.variants
+        t2, u2 = tops.get(T_.id), tops.get(U_.id)
+        c2 = t2.variants.get(C_.id) if t2 is not None else None
+        wr = data.get("variants", {})
+        wok = all(set(wr.get(u, {}).get("paths", {}).keys()) == {"os_tree"} and set(wr[u]["paths"]["os_tree"].keys()) == {arch}
+                  for u in (T_.uid, C_.uid))
+        cl = {"write_read_cycle_succeeds": True, "two_top_level_variants": len(tops) == 2,
+              "only_nonempty_paths_of_own_arches_written": wok,
+              "top_level_variants_reproduced": t2 is not None and u2 is not None and view(t2)[:7] == view(T_)[:7] and view(u2) == view(U_),
+              "child_reproduced_under_its_parent": c2 is not None and view(c2) == view(C_) and c2.parent is t2,
+              "no_other_children": t2 is not None and len(t2.variants) == 1 and u2 is not None and not u2.variants}
+        if self.layered and c2 is not None:
+            cl["layered_product_release_reproduced"] = all(getattr(c2.release, k) == v for k, v in inputs["rel"].items())
+        return nat, cl
+
+    def describe(self, inputs):
+        return "forest %s -> %s, %s on arch %r written and re-read" % (inputs["T"], inputs["C"], inputs["U"], inputs["arch"])
+
+
+def contracts(src, T):          # noqa: F811
+    return [VariantAdd(src, T, "Variants", 0), VariantAdd(src, T, "Variants", 1), VariantAdd(src, T, "Variant", 0), VariantAdd(src, T, "Variant", 1),
+            GetItem(src, T), ForestRoundTrip(src, T, False), ForestRoundTrip(src, T, True)]
